@@ -634,8 +634,8 @@ impl<RW: QueueRW<T>, T> InnerRecv<RW, T> {
                 {
                     self.queue.manager.signal.set_reader(SeqCst);
                 }
-                self.queue.manager.remove_token(self.token);
             }
+            self.queue.manager.remove_token(self.token);
             fence(SeqCst);
             f()
         }
